@@ -287,6 +287,17 @@ Definition send_transfer (mtu : option N) (xid : N) (data : bytes) : list bytes 
 Definition mtu_feasible_h (hs : list hint) (mtu : N) : bool := head_len hs + 8 <? mtu.
 Definition mtu_feasible (mtu : N) : bool := 18 <? mtu.
 
+(** Everything the theorems about a segmented transfer assume, as one
+    boolean: the MTU leaves room for data ([remain_size >= 1]), the bundle
+    does not fit, and every field value fits its width (hints well-formed,
+    32-bit transfer number and segment indices, octets < 256, segment
+    messages shorter than 2^20). *)
+Definition xfer_okb (hs : list hint) (mtu xid : N) (data : bytes) : bool :=
+  mtu_feasible_h hs mtu && negb (fits (Some mtu) (blen data))
+  && forallb wf_hintb hs && (length hs <=? MAX_LIST)%nat
+  && (xid <? 4294967296) && (blen data <? 4294967296) && wf_bytesb data
+  && (mtu <? LEN_MOD + 4).
+
 (** ** Receiver: [RxTransfer], [Agent._recv_msg] *)
 
 (** [got_idx] and [data] together: (index, octets) sorted by index, indices
